@@ -125,6 +125,7 @@ func Run(r *vreport.Run, scs []Scenario) {
 		budget = time.Duration(n) * time.Second
 	}
 	traces := map[uint64]struct{}{}
+	confirmed := map[string]bool{}
 	minBound := -1
 	for i, sc := range scs {
 		sc := sc
@@ -147,7 +148,12 @@ func Run(r *vreport.Run, scs []Scenario) {
 			if remaining < time.Second {
 				remaining = time.Second
 			}
-			e.Deadline = time.Now().Add(remaining * time.Duration(w) / time.Duration(remW))
+			// most scenarios need far less than their fair share: a scenario may use up to four fair shares of what is left
+			share := 4 * remaining * time.Duration(w) / time.Duration(remW)
+			if share > remaining {
+				share = remaining
+			}
+			e.Deadline = time.Now().Add(share)
 		}
 		nviol := 0
 		e.Check = func(x *vsched.Exec) {
@@ -170,10 +176,15 @@ func Run(r *vreport.Run, scs []Scenario) {
 				}
 				return
 			}
-			// re-run 5 times: the same choice list must give the same findings
+			// re-run 5 times: the same choice list must give the same findings (once per scenario and clause set: further
+			// executions with the same clauses are the same finding again and are only counted)
 			choices := vsched.ChoicesOf(x)
+			ckey := sc.Name
+			for _, f := range fs {
+				ckey += "|" + f.Clause
+			}
 			stable := true
-			for k := 0; k < 5; k++ {
+			for k := 0; k < 5 && !confirmed[ckey]; k++ {
 				y := e.Replay(choices)
 				fy := sc.Check(y)
 				if !sameFindings(fs, fy) {
@@ -186,6 +197,7 @@ func Run(r *vreport.Run, scs []Scenario) {
 				r.Count("unstable_candidates", 1)
 				return
 			}
+			confirmed[ckey] = true
 			nviol++
 			for _, f := range fs {
 				feats := map[string]string{"scenario_kind": kindOf(sc.Name)}
